@@ -341,7 +341,7 @@ def _query(rec, s, members, rng, info):
     import random
 
     for m in members:
-        reps = 3 if m.startswith("minimal_bounding") else 1
+        reps = (3 if _TIER["tier"] == "quick" else 10) if m.startswith("minimal_bounding") else 1
         for rep in range(reps):
             if reps > 1:
                 sd = int(rng.integers(2 ** 31))
@@ -452,12 +452,16 @@ def _polyhedron_shape(rng):
     return P, "generic:" + c["kind"]
 
 
+_TIER = {"tier": "quick"}
+
+
 def run_case(i, rng, rec, tier, state):
     cs = state["cs"]
+    _TIER["tier"] = tier
     mode = i % 5
     if mode in (0, 1):
         xy, kind = _polygon_shape(rng)
-        xy = xy * float(np.exp(rng.uniform(-1.5, 1.5)))
+        xy = xy * (float(np.exp(rng.uniform(-1.5, 1.5))) if rng.random() < 0.8 else float(10 ** rng.uniform(-3, 3)))
         ccw = bool(rng.random() < 0.6)
         if not ccw:
             xy = xy[::-1]
@@ -511,7 +515,7 @@ def run_case(i, rng, rec, tier, state):
         if kind == "tetra-base":
             P = np.vstack((P, P.mean(0) + [0.1, 0.2, rng.uniform(0.5, 2)]))
             kind = "tetrahedron"
-        P = P * float(np.exp(rng.uniform(-1.0, 1.0)))
+        P = P * (float(np.exp(rng.uniform(-1.0, 1.0))) if rng.random() < 0.8 else float(10 ** rng.uniform(-3, 3)))
         P, R, t, ratio = gen.place(rng, P, offset_choices=(0.0, 0.5, 3.0))
         P = P[rng.permutation(len(P))]
         try:
